@@ -23,7 +23,6 @@
 EXTENDS H3Stream, TraceBase
 
 Canon(e) == Lines[l - e.back]
-Last(s) == s[Len(s)]
 
 \* ------------------------------------------------ normalisation (digest form)
 \* An event is [k, sid, n, dg, push, x, end, b]: k in H, P, D, W; for D and W n
@@ -72,14 +71,14 @@ Trunc(e) == ToSet(Canon(e).trunc)
 Cmp(e, sid, items) == IF sid \in Trunc(e) THEN NoEnd(items) ELSE items
 
 \* ------------------------------------------------------------------ guard
-\* per stream, in one scan from the end of the schedule: bytes delivered, index
-\* of the last delivery, number of deliveries carrying FIN
+\* per stream, in one scan of the schedule: bytes delivered, number of deliveries
+\* carrying FIN, and whether the last delivery of the stream carries it
 RECURSIVE Scan(_, _, _)
 Scan(sched, sid, i) ==
-  IF i = 0 THEN [sum |-> 0, last |-> 0, fins |-> 0, finLast |-> FALSE]
+  IF i = 0 THEN [sum |-> 0, fins |-> 0, finLast |-> FALSE]
   ELSE LET r == Scan(sched, sid, i - 1) IN
        IF sched[i][1] # sid THEN r
-       ELSE [sum |-> r.sum + sched[i][2], last |-> i, fins |-> r.fins + (IF sched[i][3] THEN 1 ELSE 0), finLast |-> sched[i][3]]
+       ELSE [sum |-> r.sum + sched[i][2], fins |-> r.fins + (IF sched[i][3] THEN 1 ELSE 0), finLast |-> sched[i][3]]
 Guard(e) ==
   LET st == Canon(e).streams IN       \* [[sid, length, fin], ...]
   /\ \A i \in DOMAIN e.sched : e.sched[i][2] > 0 \/ e.sched[i][3]          \* DeliveryOk
